@@ -398,6 +398,16 @@ func fillValue(t *rapid.T, v reflect.Value, o Options, label string) {
 		n := rapid.IntRange(0, 8).Draw(t, label+"N")
 		ds := make([]string, n)
 		for i := range ds {
+			if rapid.IntRange(0, 3).Draw(t, label+"Custom") == 0 {
+				// any NUL-free name, the empty one included ("02 00" is a well-formed entry)
+				l := rapid.IntRange(0, 12).Draw(t, label+"Len")
+				b := make([]byte, l)
+				for j := range b {
+					b[j] = byte(rapid.IntRange(1, 255).Draw(t, label+"Ch"))
+				}
+				ds[i] = string(b)
+				continue
+			}
 			ds[i] = all[rapid.IntRange(0, len(all)-1).Draw(t, label+"I")]
 		}
 		v.FieldByName("Dialects").Set(reflect.ValueOf(ds))
